@@ -1,19 +1,25 @@
-import sys, time, subprocess, os
-sys.path.insert(0,'/verif')
-from harness import core
-from harness.props import _repo
+#!/venv/bin/python
+"""Which seeded changes does trace validation of the repository's OWN tests expose (the tests pass with every seed)?
+usage: tools/repotrace_seeds.py quick|thorough <seed id> ...   (works in a scratch worktree, never in /repo)"""
+import os, subprocess, sys
+WT = "/tmp/wt_repotrace"
+os.environ["VERIF_REPO"] = WT
+sys.path.insert(0, "/verif")
+if not os.path.isdir(WT):
+    subprocess.run(f"git -C /repo worktree add --detach {WT} HEAD", shell=True, check=True, capture_output=True)
+from harness import core            # noqa: E402
+from harness.props import _repo     # noqa: E402
 tier = sys.argv[1]
-for sid in sys.argv[2:]:
-    assert subprocess.run("git -C /repo status --porcelain", shell=True, capture_output=True, text=True).stdout.strip()==""
-    subprocess.run(f"git -C /repo apply /verif/seeded/{sid}/patch.diff", shell=True, check=True)
-    try:
-        run = core.Run("C04",tier)
-        run2 = core.Run("C02",tier)
+try:
+    for sid in sys.argv[2:]:
+        subprocess.run(f"git -C {WT} checkout -q --detach main && git -C {WT} checkout -- .", shell=True, check=True)
+        subprocess.run(f"git -C {WT} apply /verif/seeded/{sid}/patch.diff", shell=True, check=True)
+        run = core.Run("C04", tier)
         try:
-            n=_repo.run_repo_traces(run,"figures","probe_"+sid)
-            msg = f"{len(run.violations)} rejected of {n}" + (": "+run.violations[0][0][:200] if run.violations else "")
+            n = _repo.run_repo_traces(run, "figures", "probe_" + sid)
+            msg = f"{len(run.violations)} rejected of {n}" + (": " + run.violations[0][0][:200] if run.violations else "")
         except Exception as e:
-            msg = "ERR "+str(e)[:300]
-    finally:
-        subprocess.run("git -C /repo checkout -- .", shell=True)
-    print(sid, msg, flush=True)
+            msg = "ERR " + str(e)[:300]
+        print(sid, msg, flush=True)
+finally:
+    subprocess.run(f"git -C /repo worktree remove --force {WT}", shell=True)
